@@ -2,7 +2,7 @@
    Only statements; every proof is [exact <lemma>] or a closed computation on a witness. *)
 From Coq Require Import List ZArith Bool Arith.
 From KV Require Import Model.ConnMux Model.TransportPool
-  Proofs.ConnMuxProofs Proofs.ConnMuxOwn Proofs.TransportPoolOwn.
+  Proofs.ConnMuxBase Proofs.ConnMuxProofs Proofs.ConnMuxOwn Proofs.TransportPoolOwn.
 Import ListNotations.
 Local Open Scope Z_scope.
 
@@ -24,16 +24,38 @@ Theorem C06_conn_own_response : forall ls s,
 Proof. exact conn_own_response. Qed.
 Print Assumptions C06_conn_own_response.
 
-(* A call that gives up — write error, EOF / time-out while waiting for its header, non-Kafka
-   error while reading the body on the do / Batch paths — leaves the connection closed. *)
+(* The same without any bound on the number of requests the connection carries: it is enough
+   that, in every state the run visits, any two OUTSTANDING requests (waiting for their answer,
+   or answered and not yet consumed) are fewer than 2^32 sends apart.  (A bound on the NUMBER of
+   outstanding requests would not do: one request that is never answered stays outstanding
+   while 2^32 later ones complete, and the id is reused.) *)
+Theorem C06_conn_own_response_windowed : forall ls s,
+  run init ls = Some s -> run_within window init ls -> aligned s ->
+  (forall t, completed (ph (thr s t)) ->
+     exists f, got (thr s t) = Some f /\ fid f = rid (thr s t) /\ fown f = t /\
+               In f (consumed s) /\ In t (answered s)) /\
+  NoDup (map fown (consumed s)) /\
+  (forall t u, outstanding s t -> outstanding s u -> t <> u -> rid (thr s t) <> rid (thr s u)).
+Proof. exact conn_own_response_windowed. Qed.
+Print Assumptions C06_conn_own_response_windowed.
+
+(* its hypothesis holds for every run below the total bound (so it subsumes the theorem above) *)
+Theorem C06_conn_window_of_bound : forall ls s,
+  run init ls = Some s -> nsend s < ID_BOUND -> run_within window init ls.
+Proof. intros ls s H B. exact (run_within_of_bound ls init s Inv_init H B). Qed.
+Print Assumptions C06_conn_window_of_bound.
+
+(* A call that gives up on ANY code path — write error, EOF / time-out while waiting for its
+   header, non-Kafka error (time-out, EOF, parse error) while reading the body in Conn.do,
+   Conn.ApiVersions (a Conn.do operation since /repo commit 9708961) or through a Batch —
+   leaves the connection closed.  (io.ErrNoProgress is not an abandonment: it is the code's
+   answer to a foreign frame when nobody else is in flight.) *)
 Theorem C06_conn_abandon_closes : forall ls s, run init ls = Some s ->
-  forall t,
-    match ph (thr s t) with
-    | Failed EWrite | Failed EPeek => closed s = true
-    | Failed ERead => knd (thr s t) <> KApiVersions -> closed s = true
-    | _ => True
-    end.
-Proof. exact conn_abandon_closes. Qed.
+  forall t e, ph (thr s t) = Failed e -> e <> ENoProgress -> closed s = true.
+Proof.
+  intros ls s H t e P N. pose proof (conn_abandon_closes ls s H t) as A.
+  unfold abandon_closed in A. rewrite P in A. destruct e; auto; contradiction.
+Qed.
 Print Assumptions C06_conn_abandon_closes.
 
 (* ... so that a later response cannot reach anybody: once closed the connection stays
@@ -46,28 +68,6 @@ Theorem C06_conn_closed_is_final : forall ls s s', closed s = true -> run s ls =
   answered s' = answered s.
 Proof. exact conn_closed_final. Qed.
 Print Assumptions C06_conn_closed_is_final.
-
-(* The clause at full strength, for every code path: REFUTED by Conn.ApiVersions, which returns
-   a read error on the response body without closing the connection (conn.go, ApiVersions:
-   `return nil, err` after waitResponse; compare Conn.do). *)
-Theorem C06_conn_abandon_closes_apiversions_refuted :
-  exists ls s t, run init ls = Some s /\ ph (thr s t) = Failed ERead /\ closed s = false /\
-                 misaligned s = true.
-Proof. exact apiversions_abandon_witness. Qed.
-Print Assumptions C06_conn_abandon_closes_apiversions_refuted.
-
-Theorem C06_conn_abandon_closes_full_refuted : ~ C06_conn_abandon_closes_full_statement.
-Proof. exact abandon_full_refuted. Qed.
-Print Assumptions C06_conn_abandon_closes_full_refuted.
-
-(* Consequence: bytes left over from the abandoned ApiVersions exchange are delivered to a
-   later call as its response (the call completes without error and holds no frame produced
-   for its request).  Replayed on the implementation by harness op `avstale`. *)
-Theorem C06_conn_stale_delivery_refuted :
-  exists ls s t, run init ls = Some s /\ ph (thr s t) = Done ROk /\ got (thr s t) = None /\
-                 closed s = false.
-Proof. exact stale_delivery_witness. Qed.
-Print Assumptions C06_conn_stale_delivery_refuted.
 
 (* ======================= Transport (Model/TransportPool.v) ======================= *)
 
@@ -116,6 +116,22 @@ Example conn_abandon_nonvacuous :
                Nat.eqb (outcome_code (ph (thr s 2%nat))) 4)%bool
   | None => false
   end = true.
+Proof. vm_compute. reflexivity. Qed.
+
+(* the former ApiVersions witness: a deadline in the middle of the ApiVersions body now closes
+   the connection, and the following call fails instead of consuming left-over bytes *)
+Example conn_apiversions_abandon_closes :
+  match run init [Enter 1 KApiVersions; LockW 1; Send 1 true true; Arrive 1; LockR 1; PeekOwn 1;
+                  Deadline 1; Enter 2 KDo; LockW 2; Send 2 false false]%nat with
+  | Some s => (closed s && negb (misaligned s) && Nat.eqb (outcome_code (ph (thr s 1%nat))) 4 &&
+               Nat.eqb (outcome_code (ph (thr s 2%nat))) 4)%bool
+  | None => false
+  end = true.
+Proof. vm_compute. reflexivity. Qed.
+
+Example conn_apiversions_no_garbage :
+  run init [Enter 1 KApiVersions; LockW 1; Send 1 true true; Arrive 1; LockR 1; PeekOwn 1;
+            Deadline 1; Enter 2 KDo; LockW 2; Send 2 true true]%nat = None.
 Proof. vm_compute. reflexivity. Qed.
 
 (* transport: a cancelled call's answer is consumed by the run loop before the connection is
